@@ -2,8 +2,8 @@
 
 TRUSTED_COMMON = [
     'Verus 0.2026.09.13 with its bundled Z3 4.16.0 and vstd (specifications of Vec, slices, iterators, HashMap, Option)',
-    'tools/vx extraction: the rewrite rules T1..T14 of DESIGN.md section 2.2 / 8.2 are meaning-preserving (monomorphization at VecKind as rustc does it; trait impls as inherent impls; operator sugar through dispatch traits; panics as obligations)',
-    'std semantics assumed by rewrites: enumerate() counts from 0 (T8); map().collect() visits elements once in order (T9); into_iter().collect() likewise (T13); calling a boxed closure held in a struct field is a call of the opaque stand-in declared for that field, about which nothing is assumed beyond an uninterpreted postcondition (T14); `a += &x` is `a += x` (T12); #[derive(Clone)] clones field-wise',
+    'tools/vx extraction: the rewrite rules T1..T15 of DESIGN.md section 2.2 / 8.2 are meaning-preserving (monomorphization at VecKind as rustc does it; trait impls as inherent impls; operator sugar through dispatch traits; panics as obligations)',
+    'std semantics assumed by rewrites: enumerate() counts from 0 (T8); map().collect() visits elements once in order (T9); into_iter().collect() likewise (T13); calling a boxed closure held in a struct field is a call of the opaque stand-in declared for that field, about which nothing is assumed beyond an uninterpreted postcondition (T14); `for x in &mut v` and `v.iter_mut().for_each(|x| ..)` visit every position once, in order, through `&mut v[i]` (T15); std::mem::take returns the old value (assume_specification, nothing assumed about the value left behind); `a += &x` is `a += x` (T12); #[derive(Clone)] clones field-wise',
     'machine arithmetic: sizes and sums fit usize where a contract says so (explicit preconditions); allocation failure is out of scope',
 ]
 
@@ -29,9 +29,9 @@ PROPS = {
     'C06': _p('proof', explanation='every finite-function / semifinite-function operation under a Verus contract stating its set-theoretic table; coequalizer against the universal property (is_coeq); coequalizer_universal iff constant on fibres'),
     'C07': _p('proof', explanation='every array primitive of the Vec backend under a Verus contract stating its scalar definition; bodies extracted from /repo each run', kani_quick=True),
     'C08': _p('proof', explanation='every segmented-array operation under a Verus contract in list-of-lists (segment/offset) form plus the size invariant; iterator next/len/size_hint; checked constructors accept iff'),
-    'C09': _p('exploration'),
+    'C09': _p('proof', explanation='lax Hypergraph::quotient, OpenHypergraph::quotient and coequalizer extracted (rules T9, T15) and proved: the returned map is a coequalizer of the recorded unification pairs, every node reference is replaced by its image, hyperedges / labels / order untouched, labels per fibre, pending unifications cleared, a second quotient only renumbers; Err iff a fibre carries two labels, and then the diagram is unchanged'),
     'C10': _p('exploration'),
-    'C11': _p('exploration'),
+    'C11': _p('exploration', explanation='the non-deleting builder calls (new_node, new_edge, unify, add_edge_source / target, empty, discrete, is_strict) proved against the list model with full frames; deletion, relabelling and serde bounded'),
     'C12': _p('proof', explanation='define_map_arrow / spider_map_arrow proved, for every functor meeting the trait contract, to return the substitution instance (nodes replaced by their blocks, hyperedges by the image of the operations, glued along the expanded source and target lists by a coequalizer, interfaces expanded), well-formed and of type F(A) -> F(B); the instance is unique up to isomorphism; the Identity functor is proved to meet the contract and its image to be isomorphic to the argument; functoriality clauses and the lax DynFunctor wrapper are bounded', extra_modules=['subst', 'laws', 'laws2']),
     'C13': _p('exploration'),
     'C14': _p('exploration', explanation='typing clauses proved (Optic::map_object, map_operations, map_arrow, adapt: well-formed, panic-free, of the stated types for every lens-typed forward/reverse functor and residual); functoriality, monogamy and the derivative clause bounded'),
